@@ -223,7 +223,7 @@ def generate(tier, seed):
         add(rand_perm(rng, ids), votes, s34=1)
 
     # ---- random small (reference runs), arbitrary ids
-    nrand = 1200 if not thorough else 12000
+    nrand = 1200 if not thorough else 30000
     mmax = 7 if not thorough else 8
     for i in range(nrand):
         m = rng.randint(3, mmax)
